@@ -257,9 +257,28 @@ func modelLines(scs []Scenario) ([][]Line, error) {
 }
 
 // compare returns the index of the first differing step, or -1.
-func compare(impl, model []Line, metaReq map[string]bool) (int, string, string) {
-	ci := canonLinesFor(*flagProperty, impl, metaReq)
-	cm := canonLinesFor(*flagProperty, model, metaReq)
+// lazyOf finds the sessions attached through a real transport and the steps at which they drop.
+func lazyOf(ops []map[string]any) (map[string]bool, map[int][]string) {
+	lazy := map[string]bool{}
+	dropAt := map[int][]string{}
+	for i, op := range ops {
+		k := fmt.Sprint(int(num(op["s"])))
+		if via, _ := op["via"].(string); op["op"] == "join" && via != "" {
+			if b, ok := op["local"].(bool); ok && !b {
+				lazy[k] = true
+			}
+		}
+		if op["op"] == "drop" && lazy[k] {
+			dropAt[i] = append(dropAt[i], k)
+		}
+	}
+	return lazy, dropAt
+}
+
+func compare(ops []map[string]any, impl, model []Line, metaReq map[string]bool) (int, string, string) {
+	lazy, dropAt := lazyOf(ops)
+	ci := canonLinesFor(*flagProperty, impl, metaReq, lazy, dropAt)
+	cm := canonLinesFor(*flagProperty, model, metaReq, lazy, dropAt)
 	for i := range ci {
 		a := jsonKey(map[string]any{"out": ci[i].Out, "closed": nonNil(ci[i].Closed), "panic": ci[i].Panic, "refused": ci[i].Note == "refused", "sizes": sizesOrNil(ci[i].Sizes)})
 		var b string
@@ -501,11 +520,20 @@ func TestFamily(t *testing.T) {
 				SpecViolation: strings.Contains(r.Err, "panic"), Detail: "history " + fmt.Sprint(r.Scenario.ID) + ": " + r.Err})
 			continue
 		}
-		step, a, b := compare(r.Lines, models[i], r.MetaReq)
+		step, a, b := compare(r.Scenario.Ops, r.Lines, models[i], r.MetaReq)
 		if step >= 0 {
-			sum.Count("disagreeing_histories")
 			if len(sum.Disagreements) < 8 {
-				sum.Disagreements = append(sum.Disagreements, shrink(r, step))
+				if d, reproducible := shrink(r, step); reproducible {
+					sum.Count("disagreeing_histories")
+					sum.Disagreements = append(sum.Disagreements, d)
+				} else {
+					// The implementation behaved differently when the same history was run again:
+					// the difference depends on goroutine scheduling (e.g. which of several messages
+					// of one action overflows a tiny queue), not on the history. Not a disagreement.
+					sum.Count("scheduling_dependent_histories")
+				}
+			} else {
+				sum.Count("disagreeing_histories")
 			}
 		} else {
 			sum.TracesValidated++
@@ -533,8 +561,7 @@ func TestFamily(t *testing.T) {
 
 // shrink delta-debugs a disagreeing history: it re-runs the implementation (in a
 // child) and the model on sub-histories and keeps the smallest that still differs.
-func shrink(r histResult, step int) hcommon.Disagreement {
-	_ = step
+func shrink(r histResult, step int) (hcommon.Disagreement, bool) {
 	cur := r.Scenario
 	cur.Ops = cur.Ops[:step+1]
 	differs := func(s Scenario) (bool, int, string, string, bool) {
@@ -550,7 +577,7 @@ func shrink(r histResult, step int) hcommon.Disagreement {
 		for k, v := range rs[0].MetaReq {
 			meta[k] = v
 		}
-		st, a, b := compare(rs[0].Lines, ms[0], meta)
+		st, a, b := compare(s.Ops, rs[0].Lines, ms[0], meta)
 		return st >= 0, st, a, b, false
 	}
 	budget := 60
@@ -567,7 +594,16 @@ func shrink(r histResult, step int) hcommon.Disagreement {
 			}
 		}
 	}
-	_, st, a, b, _ := differs(cur)
+	still, st, a, b, _ := differs(cur)
+	if !still {
+		// fall back to the unshrunk history; if that does not differ again either, it is scheduling
+		cur = r.Scenario
+		cur.Ops = cur.Ops[:step+1]
+		still, st, a, b, _ = differs(cur)
+		if !still {
+			return hcommon.Disagreement{}, false
+		}
+	}
 	if st >= 0 && st+1 < len(cur.Ops) {
 		cur.Ops = cur.Ops[:st+1]
 	}
@@ -575,5 +611,5 @@ func shrink(r histResult, step int) hcommon.Disagreement {
 	// the history, so an implementation that deviates on it fails the property on this input.
 	d := hcommon.Disagreement{Input: cur, Impl: a, Model: b, SpecViolation: true,
 		Detail: fmt.Sprintf("history %d: model and implementation differ at step %d of the minimised history (%d ops)", r.Scenario.ID, st, len(cur.Ops))}
-	return d
+	return d, true
 }
